@@ -27,8 +27,10 @@ type C13Case struct {
 	Bad    int       `json:"bad"`   // position of a malformed tree inserted in the Newick stream (-1: none)
 	Blank  []int     `json:"blank"` // positions after which a blank line is inserted in the Newick stream
 	CRLF   bool      `json:"crlf,omitempty"`
-	Trail  []string  `json:"trail,omitempty"` // blanks written after the ';' of tree i (cyclic)
-	Chain  []string  `json:"chain"`           // conversion chain, e.g. ["nexus","phyloxml","nexus+t"]
+	Trail  []string  `json:"trail,omitempty"`  // blanks written after the ';' of tree i (cyclic)
+	Wrap   []int     `json:"wrap,omitempty"`   // token boundaries of the Newick stream after which a line break is inserted (cyclic step sizes)
+	Hetero bool      `json:"hetero,omitempty"` // the trees are not all on the same taxa: a reader may then report an error instead of delivering
+	Chain  []string  `json:"chain"`            // conversion chain, e.g. ["nexus","phyloxml","nexus+t"]
 	BufSz  int       `json:"bufsz"`
 	Chunks []int     `json:"chunks"`
 	Sched  SchedCase `json:"sched"`
@@ -50,7 +52,7 @@ func init() {
 		Real: []string{"Tree.Newick", "Tree.Nexus", "nexus.WriteNexus", "phyloxml.WritePhyloXML", "nexus.Parser", "phyloxml.Parser", "nextstrain.Parser", "newick.Parser",
 			"fileutils.ReadUntilSemiColon", "utils.ReadMultiTrees reader goroutine", "utils.ReadTreeReader"},
 		Simulated: []string{"input byte stream (chunk plan, zero-length reads, buffer size)", "reader goroutine vs. consumer schedule", "position of the malformed tree"},
-		Expected:  []string{"hop:nexus", "hop:nexus+t", "hop:treenexus", "hop:phyloxml", "blanks-after-semicolon", "malformed-at-0", "malformed-in-middle", "numeric-names", "rooted-tree", "isprefix-path", "single-vs-multi:nextstrain"},
+		Expected:  []string{"hop:nexus", "hop:nexus+t", "hop:treenexus", "hop:phyloxml", "blanks-after-semicolon", "tree-wrapped-over-lines", "heterogeneous-taxa", "malformed-at-0", "malformed-in-middle", "numeric-names", "rooted-tree", "isprefix-path", "single-vs-multi:nextstrain"},
 	})
 }
 
@@ -68,6 +70,7 @@ func genC13(rt *rapid.T, tier string) any {
 			tx = append(tx, rapid.SampledFrom([]string{"t", "Tx_", "sp.", "A", "z9_"}).Draw(rt, "prefix")+strconv.Itoa(i))
 		}
 	}
+	c.Hetero = rapid.IntRange(0, 7).Draw(rt, "hetero") == 0
 	ntrees := rapid.IntRange(1, 6).Draw(rt, "ntrees")
 	if rapid.IntRange(0, 7).Draw(rt, "manytrees") == 0 {
 		ntrees = rapid.IntRange(10, 13).Draw(rt, "ntreesmany") // tree10 sorts before tree2
@@ -96,6 +99,22 @@ func genC13(rt *rapid.T, tier string) any {
 				}
 			}
 		}
+		if rapid.IntRange(0, 5).Draw(rt, "rootname") == 0 {
+			m.Label = "root" + strconv.Itoa(i)
+		}
+		if c.Hetero && i > 0 && len(tx) > 4 && rapid.Bool().Draw(rt, "droptip") {
+			// this tree lacks one taxon
+			var tips []*RNode
+			for _, x := range m.all() {
+				if x.IsTip() && x.Parent != nil && len(x.Parent.Children) > 2 {
+					tips = append(tips, x)
+				}
+			}
+			if len(tips) > 0 {
+				v := tips[r.Intn(len(tips))]
+				v.Parent.removeChild(v)
+			}
+		}
 		c.Trees = append(c.Trees, m.Newick())
 	}
 	if rapid.IntRange(0, 3).Draw(rt, "withbad") == 0 {
@@ -103,6 +122,9 @@ func genC13(rt *rapid.T, tier string) any {
 	}
 	c.Blank = rapid.SliceOfN(rapid.IntRange(0, ntrees), 0, 3).Draw(rt, "blank")
 	c.CRLF = rapid.IntRange(0, 5).Draw(rt, "crlf") == 0
+	if rapid.IntRange(0, 3).Draw(rt, "wrapped") == 0 {
+		c.Wrap = rapid.SliceOfN(rapid.IntRange(1, 9), 1, 4).Draw(rt, "wrap")
+	}
 	c.Trail = rapid.SliceOfN(rapid.SampledFrom([]string{"", "", " ", "\t", " \t ", "\t\t", "   "}), 1, 3).Draw(rt, "trail")
 	c.Chain = rapid.SliceOfN(rapid.SampledFrom([]string{"nexus", "nexus+t", "treenexus", "phyloxml"}), 1, 3).Draw(rt, "chain")
 	c.BufSz = rapid.SampledFrom([]int{16, 17, 64, 4096, 65536}).Draw(rt, "bufsz")
@@ -309,7 +331,10 @@ func execC13(t *testing.T, cc any, o *Outcome) {
 			if trail != "" {
 				o.Probe("blanks-after-semicolon")
 			}
-			sb.WriteString(c.Trees[i] + trail + eol)
+			sb.WriteString(wrapNewick(c.Trees[i], c.Wrap, eol) + trail + eol)
+			if len(c.Wrap) > 0 {
+				o.Probe("tree-wrapped-over-lines")
+			}
 			pos++
 			if blank[pos] {
 				sb.WriteString("  " + eol)
@@ -403,6 +428,16 @@ func execC13(t *testing.T, cc any, o *Outcome) {
 		if !ok {
 			return
 		}
+		if c.Hetero {
+			o.Probe("heterogeneous-taxa")
+			anyErr := false
+			for _, r := range back {
+				anyErr = anyErr || r.err
+			}
+			if anyErr {
+				return // "or an error is reported": a list on differing taxa may be refused by a format that declares its taxa
+			}
+		}
 		if len(back) != len(expect) {
 			o.Fail("roundtrip-count:"+kind, "%d records read back for %d trees written (records: %s)\n%s", len(back), len(expect), showRecs(back), hctx)
 			return
@@ -421,7 +456,7 @@ func execC13(t *testing.T, cc any, o *Outcome) {
 			}
 			next = append(next, r.text)
 		}
-		if c.BufSz == 16 && kind != "treenexus" && len(o.Viols) == 0 {
+		if c.BufSz == 16 && kind != "treenexus" && len(o.Viols) == 0 && !c.Hetero {
 			checkReformatCLI(t, o, c, kind, fname, cur, expect, doc)
 		}
 		single, failed := readSingle(o, "single/"+fname, doc, format, c)
@@ -561,4 +596,36 @@ func checkReformatCLI(t *testing.T, o *Outcome, c *C13Case, kind, fname string, 
 			return
 		}
 	}
+}
+
+// wrapNewick breaks a Newick text over several lines at token boundaries only (after '(' ',' ')' and before ',' ')' ':'),
+// every steps[k]-th boundary: the text stays the same tree for every reader.
+func wrapNewick(text string, steps []int, eol string) string {
+	if len(steps) == 0 {
+		return text
+	}
+	var b strings.Builder
+	count, k := 0, 0
+	for i := 0; i < len(text); i++ {
+		ch := text[i]
+		boundaryBefore := ch == ',' || ch == ')' || ch == ':'
+		if boundaryBefore && i > 0 {
+			count++
+			if count >= steps[k%len(steps)] {
+				b.WriteString(eol)
+				count = 0
+				k++
+			}
+		}
+		b.WriteByte(ch)
+		if (ch == '(' || ch == ',' || ch == ')') && i+1 < len(text) && text[i+1] != ';' {
+			count++
+			if count >= steps[k%len(steps)] {
+				b.WriteString(eol)
+				count = 0
+				k++
+			}
+		}
+	}
+	return b.String()
 }
